@@ -1,0 +1,41 @@
+//! Verification-only coverage probes and work counter (compiled only with
+//! `--cfg num_bigint_verif`).  Add-only instrumentation: never read by library code.
+use core::sync::atomic::{AtomicU64, Ordering};
+
+/// Number of probe slots.
+pub const NPROBES: usize = 128;
+
+#[allow(clippy::declare_interior_mutable_const)]
+const ZERO: AtomicU64 = AtomicU64::new(0);
+static HITS: [AtomicU64; NPROBES] = [ZERO; NPROBES];
+static WORK: AtomicU64 = AtomicU64::new(0);
+
+/// Record that branch point `n` was reached.
+#[inline]
+pub fn hit(n: usize) {
+    HITS[n].fetch_add(1, Ordering::Relaxed);
+}
+
+/// Add `n` elementary digit multiplications to the work counter.
+#[inline]
+pub fn add_work(n: usize) {
+    WORK.fetch_add(n as u64, Ordering::Relaxed);
+}
+
+/// Current work counter.
+pub fn work() -> u64 {
+    WORK.load(Ordering::Relaxed)
+}
+
+/// Current hit count of probe `n`.
+pub fn hits(n: usize) -> u64 {
+    HITS[n].load(Ordering::Relaxed)
+}
+
+/// Reset all probes and the work counter.
+pub fn reset() {
+    for h in HITS.iter() {
+        h.store(0, Ordering::Relaxed);
+    }
+    WORK.store(0, Ordering::Relaxed);
+}
